@@ -538,7 +538,7 @@ def _pfok_paramsstd_ref(c):
     if c['name'] not in RP.STD_NAMES:
         return {'ret': E['FILE_NOT_FOUND'], '_check_outs_on_error': True, 'params': bytes(PFOK_SIZE), 'seed': bytes(PFOK_SEED_SIZE)}
     return {'ret': 0, 'params': pfok_enc(RP.params_std(c['name'])), 'seed': pfok_seed_enc(RP.seed_std(c['name']))}
-reg(Fn('pfokParamsStd', [('out', 'params', PFOK_SIZE), ('out', 'seed', PFOK_SEED_SIZE), ('str', 'name')], _pfok_paramsstd_ref, group='sig'))
+reg(Fn('pfokParamsStd', [('out', 'params', PFOK_SIZE), ('out', 'seed', PFOK_SEED_SIZE), ('str', 'name')], _pfok_paramsstd_ref, group='sig')).nullable = ('seed',)   # pfok.h: seed may be NULL
 
 def _pfok_paramsval_ref(c):
     return {'ret': 0 if RP.params_val(pfok_dec(c['params'])) else E['BAD_PARAMS']}
